@@ -145,10 +145,24 @@ func legacyRoundTrip(r *ev.Run, c *ev.Case, a *message.Attributes, direct bool) 
 		r.Violation(c, "legacy-roundtrip-field:"+bad, fmt.Sprintf("in=%s\nout=%s\ntext=%q", js(a), js(b), text), rec{Attrs: a, Text: text, What: what})
 		return
 	}
-	// raw tokens mirrored into the extension map
+	// raw tokens mirrored into the extension map, and retrievable through the accessors
 	for k, v := range msgref.LegacyTokens(text) {
 		if got, ok := b.Exts[k]; !ok || got != v {
 			r.Violation(c, "legacy-token-not-mirrored", fmt.Sprintf("token %q=%q, Exts=%v, text=%q", k, v, b.Exts, text), rec{Attrs: a, Text: text, What: what})
+			return
+		}
+		if got, err := b.ExtendedAttrStr(k); err != nil || got != v {
+			r.Violation(c, "legacy-token-not-retrievable", fmt.Sprintf("ExtendedAttrStr(%q)=%q,%v want %q", k, got, err, v), rec{Attrs: a, Text: text, What: what})
+			return
+		}
+		if got, err := b.ExtendedAttr(k); err != nil || got != any(v) {
+			r.Violation(c, "legacy-token-not-retrievable", fmt.Sprintf("ExtendedAttr(%q)=%v,%v", k, got, err), rec{Attrs: a, Text: text, What: what})
+			return
+		}
+	}
+	if a.HardKey {
+		if hb, err := b.ExtendedAttrBool("HardKey"); err != nil || !hb {
+			r.Violation(c, "legacy-bool-token-not-retrievable", fmt.Sprintf("ExtendedAttrBool(HardKey)=%v,%v", hb, err), rec{Attrs: a, Text: text, What: what})
 			return
 		}
 	}
